@@ -4,7 +4,7 @@
    (what Go and the naming strategy give; [wfb] decides it, see c10_harness_schemas_wf).
    [local table items]: "tbl.col" / "tbl.*" items use the statement's own table.
    sm = select_and_omit s table selects omits req_create req_update is Statement.SelectAndOmitColumns. *)
-From Verif Require Import Base C10_Model C10_Spec C10_Schemas C10_Proofs C10_Proofs2 C10_Proofs3.
+From Verif Require Import Base C10_Model C10_Spec C10_Schemas C10_Proofs C10_Proofs2 C10_Proofs3 C10_Proofs4.
 Open Scope Z_scope.
 
 (* the select map, read declaratively: denied permission wins, then Omit, then Select *)
@@ -239,6 +239,28 @@ Theorem c10_patch_cells : forall s table, wf s -> forall us o skip selects omits
                  /\ c_src x = (if hooked skip g then KNow else KPay).
 Proof. exact patch_cells. Qed.
 Print Assumptions c10_patch_cells.
+
+(* ---- round 7, TASK B: the WHOLE executable specification, for struct updates -------------------------------------
+   [spec_case] is the predicate the checker evaluates on what gorm wrote.  For Updates(struct) and
+   UpdateColumns(struct) (value of the model's type, any history of earlier updates through the handle) it holds of
+   the model's own output, all clauses at once: the changed rows are exactly the stored rows matching the model
+   value's key and the chain condition; every cell is a permitted, selected, non-omitted column with the right value
+   source; every column the property demands is written in every targeted row; a refusal only without any
+   condition or when one key value would be written into several rows.  For every well-formed schema, Select /
+   Omit list with own-table qualifiers, payload, stored rows, model key (struct or slice) and Where. *)
+Theorem c10_struct_update_meets_spec : forall s table, wf s ->
+  forall o skip selects omits ps stored mk wh earlier,
+  is_struct_update o = Some skip -> local table selects = true -> local table omits = true ->
+  let m := run_case s table o selects omits ps stored mk wh None earlier in
+  spec_case s table o selects omits ps stored mk wh None (out_cells m) (out_err m) = true.
+Proof. exact struct_update_meets_spec. Qed.
+Print Assumptions c10_struct_update_meets_spec.
+
+(* the model's key test (ConvertToAssignments' WHERE clauses) is the specification's reading of "the model
+   value's primary key", for struct and slice model values *)
+Theorem c10_key_match_is_spec : forall mk ks, key_match mk ks = mkey_ok mk ks.
+Proof. exact key_match_mkey_ok. Qed.
+Print Assumptions c10_key_match_is_spec.
 
 (* the hypotheses are met by the six model types of the harness *)
 Theorem c10_harness_schemas_wf : Forall wf harness_schemas.
